@@ -152,7 +152,7 @@ def classify_exc(W, e):
 
 
 def shape_value(name, v, per_fragment=False):
-    if name == "recv":
+    if name in ("recv", "next", "iter"):
         return ("str", v) if isinstance(v, str) else ("bytes", bytes(v))
     if name == "recv_frame":
         return (int(v.fin), int(v.opcode), _b(v.data))
@@ -257,6 +257,10 @@ def run_recv_script(stream, script, segs=None, ending="eof", ws_kwargs=None, tim
             try:
                 if name == "recv":
                     v = w.recv()
+                elif name == "next":
+                    v = next(w)
+                elif name == "iter":
+                    v = next(iter(w))
                 elif name == "recv_data":
                     v = w.recv_data(cf)
                 elif name == "recv_data_frame":
